@@ -27,7 +27,7 @@ using sim::Workload;
 using sim::Result;
 using sim::Rng;
 
-enum { C_PART = 0, C_QLEN, C_RECYCLE };
+enum { C_PART = 0, C_QLEN, C_RECYCLE, C_ARENA };
 enum { P_LRU_SET = 0, P_LRU_MAP, P_SPLAY_SET, P_SPLAY_MULTI, P_SPLAY_SET_TRACKED, P_SPLAY_MULTI_TRACKED, P_LRU_SET_HEAP, P_LRU_MAP_HEAP, P_N };
 enum { L_PUT = 0, L_TOUCH, L_TOUCH_IF, L_GET, L_GET_TOUCH, L_ERASE, L_ERASE_IF, L_EXISTS, L_POP, L_CLEAR, L_PUT_OWN_VALUE, L_N };
 enum { S_INSERT = 0, S_ERASE, S_EXISTS, S_FIND, S_CLEAR, S_ERASE_NODE, S_KEEP_NODE, S_ERASE_KEPT, S_N };
@@ -36,7 +36,7 @@ constexpr int KEYS = 8;
 
 void generate(Rng& r, Workload& w, int tier) {
     int part = int(r.below(P_N));
-    w.cfg = {part, int64_t(r.below(5)), int64_t(r.below(4))};
+    w.cfg = {part, int64_t(r.below(5)), int64_t(r.below(4)), int64_t(r.below(2))};   // last: the LRU caches get an allocator instance unequal to a default-constructed one
     int n = int(r.range(1, tier ? 200 : 50));
     // a splay tree has no depth bound: a long monotone history (here: one key inserted many times into a
     // multiset) makes a spine of that length, which the traversals and clear() must cope with
@@ -82,8 +82,12 @@ void run_lru(const Workload& w, Result& res) {
     using Map = tlx::LruCacheMap<K, V, sim::Alloc<std::pair<K, V> > >;
     auto K_ = [](int x) { return lru_mk<K>(x); };
     auto V_ = [](int x) { return lru_mk<V>(x); };
-    auto set = std::make_unique<Set>();
-    auto map = std::make_unique<Map>();
+    // a stateful allocator instance that is not equal to a default-constructed one (every block must go back
+    // through an allocator equal to the one it came from)
+    const int arena = sim::modn(sim::cfg_at(w, C_ARENA), 2) == 1 ? 1 : 0;
+    if (arena) res.probe("lru_with_allocator_instance");
+    auto set = std::make_unique<Set>(sim::Alloc<K>(arena));
+    auto map = std::make_unique<Map>(sim::Alloc<std::pair<K, V> >(arena));
     std::list<int> order;                // front = most recently put or touched
     std::map<int, int> value;
     static const char* names[] = {"put", "touch", "touch_if_exists", "get", "get_touch", "erase", "erase_if_exists", "exists", "pop", "clear", "put_own_value"};
